@@ -4,7 +4,7 @@ From Coq Require Import String List NArith ZArith Bool.
 From J5V.lib Require Import Outcome.
 From J5V.model Require Import ReflectDesc ReflectSchema Reflect ReflectSpec.
 From J5V.gen Require ReflectGen.
-From J5V.proofs Require Import ReflectProofs ExportProofs ReflectInvProofs.
+From J5V.proofs Require Import ReflectProofs ExportProofs ReflectInvProofs ReflectPathProofs.
 From J5V.model Require Import Export.
 Import ListNotations.
 
@@ -48,6 +48,18 @@ Theorem C18_reflect_ok_guarantees : forall D, wf_desc D -> forall fs S,
   (forall k, lookup S k <> Some Placeholder).
 Proof. exact reflect_ok_guarantees. Qed.
 Print Assumptions C18_reflect_ok_guarantees.
+
+(* ---- clause 2 of the property as a theorem, for every well-formed descriptor set whose field
+   numbers are distinct per message (wf_paths; protoc guarantees it): after a successful reflection
+   every object and oneof has pairwise distinct property names and every recorded proto field path
+   resolves, in the message the schema describes, to a field of the matching kind (scalar kind or
+   well-known type, enum to an enum schema, object / oneof to an object / oneof schema as
+   isOneofWrapper decides, arrays on repeated fields, maps on map fields; members of exposed oneofs
+   included) *)
+Theorem C18_reflect_consistent : forall D fs S,
+  wf_paths D -> reflect D fs = Ok S -> set_consistent D S = true.
+Proof. exact reflect_consistent. Qed.
+Print Assumptions C18_reflect_consistent.
 
 (* each proto kind is handled by an arm or rejected with an error, as the Go switches list them *)
 Theorem C18_scalar_arms_are_the_code's :
@@ -157,9 +169,10 @@ Definition ex_desc : desc :=
      d_files := [File (bytes "p/v1/a.proto") (bytes "p.v1") [bytes "p.v1.Node"; bytes "p.v1.Peer"] [bytes "p.v1.Kind"]] |}.
 
 Example C18_example :
-  wf_desc ex_desc /\ wf_total ex_desc /\
+  wf_paths ex_desc /\ wf_desc ex_desc /\ wf_total ex_desc /\
   exists S, reflect ex_desc (d_files ex_desc) = Ok S /\ length S = 3%nat /\ set_consistent ex_desc S = true.
 Proof.
+  split; [apply wf_paths_b_sound; vm_compute; reflexivity|].
   split; [apply wf_desc_b_sound; vm_compute; reflexivity|].
   split.
   - split.
